@@ -113,6 +113,9 @@ Proof. revert h; induction a as [|e a IH]; intro h; simpl; auto. Qed.
 Lemma okev_yield h : okev extra h (EYield false) = true -> h = [].
 Proof. simpl. intro H. apply andb_true_iff in H as [H _]. now apply is_nil_true. Qed.
 
+Lemma okev_block h : okev extra h (EBlock false) = true -> h = [].
+Proof. simpl. intro H. apply andb_true_iff in H as [H _]. now apply is_nil_true. Qed.
+
 End Disc.
 
 (* ---------- soundness of the checker ---------- *)
@@ -158,6 +161,7 @@ Lemma chk_jump l : chk (S n) c (Jump l) k = ([], [(OJump l, k)]). Proof. reflexi
 Lemma chk_ret : chk (S n) c Ret k = ([], [(ORet, k)]). Proof. reflexivity. Qed.
 Lemma chk_callback : chk (S n) c Callback k = do_ev extra c (EYield (xin (cx_ex c) XYield)) k. Proof. reflexivity. Qed.
 Lemma chk_join : chk (S n) c Join k = do_ev extra c (EYield (xin (cx_ex c) XYield)) k. Proof. reflexivity. Qed.
+Lemma chk_blocking : chk (S n) c Blocking k = do_ev extra c (EBlock (xin (cx_ex c) XBlock)) k. Proof. reflexivity. Qed.
 Lemma chk_unknown : chk (S n) c Unknown k = ([vio c VUnknown (fst k)], []). Proof. reflexivity. Qed.
 Lemma chk_0 s : chk 0 c s k = ([vio c VFuel (fst k)], []). Proof. reflexivity. Qed.
 
@@ -305,6 +309,7 @@ Proof.
     apply do_ev_ok in H as [H1 H2]. rewrite H2.
     pose proof (okev_yield _ _ H1) as ->. simpl. rewrite IHa. auto.
   - (* Join *) intros ex ds fuel c h Hc H. fuel0 fuel H. rewrite chk_join in *. subst ex. evcase H.
+  - (* Blocking *) intros ex ds fuel c h Hc H. fuel0 fuel H. rewrite chk_blocking in *. subst ex. evcase H.
   - (* Unknown *) intros ex ds tr o ds1 fuel c h _ H. fuel0 fuel H. rewrite chk_unknown in H. discriminate.
   - (* frame *) intros ex s tr1 o ds tr2 _ IH1 _ IH2 fuel c h Hc H. fuel0 fuel H.
     rewrite chk_frame_S in *. cbn [fst snd] in H |- *.
@@ -568,6 +573,18 @@ Proof.
   now apply okev_yield in O.
 Qed.
 
+(* a goroutine that is about to wait on the outside world (socket, channel without timeout,
+   sleep) holds no mutex either: nobody can be queued behind it on a mutex *)
+Theorem block_holds_nothing traces s i t r :
+  Forall (ok_trace (ord_extra rank) []) traces -> msteps (init_state traces) s ->
+  nth_error s i = Some t -> rest t = EBlock false :: r -> hs t = [].
+Proof.
+  intros Hall Hs Hi Hr.
+  assert (Inv (ord_extra rank) s) as I by (eapply steps_inv; [|exact Hs]; now apply init_inv).
+  destruct I as [Hok _]. pose proof (Hok _ _ Hi) as O. rewrite Hr in O. destruct O as [O _].
+  now apply okev_block in O.
+Qed.
+
 End Order.
 
 (* ---------- the theorems of the property ---------- *)
@@ -582,18 +599,20 @@ Theorem lockset_sound p :
       | ERd l false => exists md, In (guard_of p l, md) (after [] a)
       | ERel m md => In (m, md) (after [] a)
       | EYield false => after [] a = []
+      | EBlock false => after [] a = []
       | _ => True
       end.
 Proof.
   intros Hc tr Hr a e b ->.
   pose proof (runs_ok p _ _ (violations_nil _ _ _ Hc) _ Hr) as O.
   apply ok_app in O as [_ O]. simpl in O. destruct O as [O _].
-  destruct e as [m md x|m md|l x|l x|x]; auto.
+  destruct e as [m md x|m md|l x|l x|x|x]; auto.
   - simpl in O. apply andb_true_iff in O as [O _]. apply existsb_exists in O as (y & Hy & E).
     apply lk_eqb_eq in E. now subst y.
   - destruct x; auto. simpl in O. now apply holds_any_In.
   - destruct x; auto. simpl in O. now apply holds_w_In.
   - destruct x; auto. now apply okev_yield in O.
+  - destruct x; auto. now apply okev_block in O.
 Qed.
 
 Theorem C12_race_free_gen p :
@@ -611,13 +630,15 @@ Theorem C12_lock_order_gen p :
   forall traces, Forall (runs p) traces ->
   forall s, msteps (init_state traces) s ->
     (forall i, ~ clos_trans nat (waits_for s) i i) /\
-    (forall i t r, nth_error s i = Some t -> rest t = EYield false :: r -> hs t = []).
+    (forall i t r, nth_error s i = Some t -> rest t = EYield false :: r -> hs t = []) /\
+    (forall i t r, nth_error s i = Some t -> rest t = EBlock false :: r -> hs t = []).
 Proof.
   intros Hc traces Hall s Hs.
   assert (Forall (ok_trace (ord_extra (rank_of p)) []) traces) as Hok.
   { apply Forall_forall. intros tr Htr. rewrite Forall_forall in Hall.
     exact (runs_ok p _ _ (violations_nil _ _ _ Hc) tr (Hall tr Htr)). }
-  split.
+  split; [|split].
   - intro i. eapply no_lock_cycle; eauto.
   - intros i t r. eapply yield_holds_nothing; eauto.
+  - intros i t r. eapply block_holds_nothing; eauto.
 Qed.
